@@ -5,62 +5,87 @@ every point of the run, the window state is the projection of the set of active 
 set_option linter.unusedSimpArgs false
 namespace HappyModel.C06
 
-/-- every fault event in the schedule belongs to a fault of the plan whose handle was not cancelled
-    (`FaultHandle.cancel` marks the events cancelled and the engine never delivers those: C01) -/
-def Legit (c : Case) (tr : List Pop) : Prop :=
-  ∀ t f a, Pop.fault t f a ∈ tr → ∃ ft, c.faults[f]? = some ft ∧ ft.cancelled = false
+/-- the handles that are cancelled after a processed event -/
+def cancStep (canc : List Nat) : Pop → List Nat
+  | .cancel _ f => f :: canc
+  | _ => canc
+
+/-- every fault event in the schedule belongs to a fault of the plan, and none is processed once the
+    handle of its fault is cancelled (`FaultHandle.cancel` marks the pending events cancelled and the
+    engine never delivers those: C01 `never_cancelled`) -/
+def legitFrom (c : Case) (canc : List Nat) : List Pop → Bool
+  | [] => true
+  | .fault _ f _ :: rest => (c.faults[f]?).isSome && !canc.contains f && legitFrom c canc rest
+  | .cancel _ f :: rest => legitFrom c (f :: canc) rest
+  | _ :: rest => legitFrom c canc rest
+
+/-- … starting from the handles cancelled before the run (`Case.initCanc`) -/
+def Legit (c : Case) (tr : List Pop) : Prop := legitFrom c c.initCanc tr = true
 
 def everStep (ever : List Nat) : Pop → List Nat
   | .fault _ f true => f :: ever
   | _ => ever
 
-structure GInv (c : Case) (s : St) (ever act : List Nat) : Prop where
+structure GInv (c : Case) (s : St) (ever act canc : List Nat) : Prop where
   w : WInv c.faults s.ws act
   nd : act.Nodup
   sub : ∀ f, f ∈ act → f ∈ ever
   firedA : ∀ f, (f, true) ∈ s.fired ↔ f ∈ ever
   firedD : ∀ f, (f, false) ∈ s.fired → f ∉ act ∧ f ∈ ever
+  canc : s.cancelled = canc
 
-theorem ginv_init (c : Case) : GInv c (St.init c) [] [] := by
+theorem ginv_init (c : Case) : GInv c (St.init c) [] [] c.initCanc := by
   constructor
   · exact winv_init _
   · exact List.nodup_nil
   · intro f h; exact h
   · intro f; simp [St.init]
   · intro f h; simp [St.init] at h
+  · rfl
 
-theorem legit_tail {c : Case} {p : Pop} {rest : List Pop} (h : Legit c (p :: rest)) : Legit c rest :=
-  fun t f a hm => h t f a (List.mem_cons_of_mem _ hm)
+theorem isPartK_of_isPartF {fs : List Fault} {f : Nat} {k : Kind} (hk : kindOf fs f = some k)
+    (hp : isPartF fs f = true) : isPartK k = true := by
+  unfold isPartF at hp; rw [hk] at hp
+  cases k <;> simp_all [isPartK]
 
-theorem ginv_step (c : Case) (s : St) (ever act : List Nat) (p : Pop) (rest : List Pop)
-    (h : GInv c s ever act) (hwf : wfFrom ever act (p :: rest) = true) (hl : Legit c (p :: rest)) :
-    GInv c (step c s p).1 (everStep ever p) (actStep act p) ∧
-    wfFrom (everStep ever p) (actStep act p) rest = true := by
+theorem ginv_step (c : Case) (s : St) (ever act canc : List Nat) (p : Pop) (rest : List Pop)
+    (h : GInv c s ever act canc) (hwf : wfFrom c.faults ever act (p :: rest) = true)
+    (hl : legitFrom c canc (p :: rest) = true) :
+    GInv c (step c s p).1 (everStep ever p) (actStep c.faults act p) (cancStep canc p) ∧
+    wfFrom c.faults (everStep ever p) (actStep c.faults act p) rest = true ∧
+    legitFrom c (cancStep canc p) rest = true := by
   by_cases hf : p.isFault = false
   · have fr := frame_step c s p hf
     have e1 : everStep ever p = ever := by cases p <;> simp_all [everStep, Pop.isFault]
-    have e2 : actStep act p = act := by cases p <;> simp_all [actStep, Pop.isFault]
-    have e3 : wfFrom ever act rest = true := by cases p <;> simp_all [wfFrom, Pop.isFault]
-    rw [e1, e2]
-    refine ⟨⟨?_, h.nd, h.sub, ?_, ?_⟩, e3⟩
+    have e2 : actStep c.faults act p = act := by cases p <;> simp_all [actStep, Pop.isFault]
+    have e3 : wfFrom c.faults ever act rest = true := by cases p <;> simp_all [wfFrom, Pop.isFault]
+    have e4 : cancStep canc p = canc := by cases p <;> simp_all [cancStep, Pop.isFault]
+    have e5 : legitFrom c canc rest = true := by cases p <;> simp_all [legitFrom, Pop.isFault]
+    rw [e1, e2, e4]
+    refine ⟨⟨?_, h.nd, h.sub, ?_, ?_, ?_⟩, e3, e5⟩
     · rw [fr.1]; exact h.w
-    · intro f; rw [fr.2]; exact h.firedA f
-    · intro f; rw [fr.2]; exact h.firedD f
+    · intro f; rw [fr.2.1]; exact h.firedA f
+    · intro f; rw [fr.2.1]; exact h.firedD f
+    · rw [fr.2.2]; exact h.canc
   · cases p with
     | fault t f a =>
-      obtain ⟨ft, hft, hcan⟩ := hl t f a (List.mem_cons_self ..)
+      simp only [legitFrom, Bool.and_eq_true, Bool.not_eq_true', List.contains_eq_mem,
+        decide_eq_false_iff_not] at hl
+      obtain ⟨⟨hsome, hnc⟩, hlrest⟩ := hl
+      obtain ⟨ft, hft⟩ := Option.isSome_iff_exists.mp hsome
       have hk : kindOf c.faults f = some ft.kind := by simp [kindOf, hft]
+      have hcan : f ∉ s.cancelled := by
+        rw [h.canc]; exact hnc
       cases a with
       | true =>
         simp only [wfFrom, Bool.and_eq_true, Bool.not_eq_true', List.contains_eq_mem,
           decide_eq_false_iff_not] at hwf
         obtain ⟨hne, hrest⟩ := hwf
-        have h1 : s.fired.contains (f, true) = false := by
-          simp only [List.contains_eq_mem, decide_eq_false_iff_not]
-          exact fun hm => hne ((h.firedA f).mp hm)
-        obtain ⟨hws, hfired⟩ := step_fault c s t f true ft hft hcan h1 (by simp)
-        simp only [everStep, actStep]
-        refine ⟨⟨?_, ?_, ?_, ?_, ?_⟩, hrest⟩
+        have h1 : (f, true) ∉ s.fired := fun hm => hne ((h.firedA f).mp hm)
+        have hg : faultBad s f true ft.kind = false := by simp [faultBad, hcan, h1]
+        obtain ⟨hws, hfired, hcc⟩ := step_fault c s t f true ft hft hg
+        simp only [everStep, actStep, cancStep]
+        refine ⟨⟨?_, ?_, ?_, ?_, ?_, ?_⟩, hrest, hlrest⟩
         · rw [hws]; exact winv_activate _ _ _ _ _ hk h.w
         · exact List.nodup_cons.mpr ⟨fun hm => hne (h.sub f hm), h.nd⟩
         · intro g hg
@@ -77,47 +102,87 @@ theorem ginv_step (c : Case) (s : St) (ever act : List Nat) (p : Pop) (rest : Li
           rcases List.mem_cons.mp hm with rfl | hm
           · exact hne hev
           · exact hna hm
+        · rw [hcc]; exact h.canc
       | false =>
-        simp only [wfFrom, Bool.and_eq_true, List.contains_eq_mem, decide_eq_true_eq] at hwf
-        obtain ⟨hin, hrest⟩ := hwf
-        have h1 : s.fired.contains (f, false) = false := by
-          simp only [List.contains_eq_mem, decide_eq_false_iff_not]
-          exact fun hm => (h.firedD f hm).1 hin
-        have h2 : s.fired.contains (f, true) = true := by
-          simp only [List.contains_eq_mem, decide_eq_true_eq]
-          exact (h.firedA f).mpr (h.sub f hin)
-        obtain ⟨hws, hfired⟩ := step_fault c s t f false ft hft hcan h1 (fun _ => h2)
-        simp only [everStep, actStep]
-        refine ⟨⟨?_, ?_, ?_, ?_, ?_⟩, hrest⟩
-        · rw [hws]; exact winv_deactivate _ _ _ _ _ hk h.w h.nd hin
-        · exact nodup_erase f h.nd
-        · intro g hg; exact h.sub g (List.mem_of_mem_erase hg)
-        · intro g; rw [hfired]
-          simp only [List.mem_cons, Prod.mk.injEq, Bool.true_eq_false, and_false, false_or]
-          exact h.firedA g
-        · intro g hg; rw [hfired] at hg
-          rcases List.mem_cons.mp hg with heq | hg
-          · have : g = f := by simpa using congrArg Prod.fst heq
-            subst this
-            exact ⟨fun hm => (List.Nodup.not_mem_erase h.nd) hm, h.sub g hin⟩
-          · exact ⟨fun hm => (h.firedD g hg).1 (List.mem_of_mem_erase hm), (h.firedD g hg).2⟩
+        simp only [wfFrom, Bool.and_eq_true, Bool.or_eq_true, List.contains_eq_mem,
+          decide_eq_true_eq] at hwf
+        obtain ⟨hcond, hrest⟩ := hwf
+        simp only [everStep, actStep, cancStep]
+        by_cases hin : f ∈ act
+        · have h1 : (f, false) ∉ s.fired := fun hm => (h.firedD f hm).1 hin
+          have h2 : (f, true) ∈ s.fired := (h.firedA f).mpr (h.sub f hin)
+          have hg : faultBad s f false ft.kind = false := by simp [faultBad, hcan, h1, h2]
+          obtain ⟨hws, hfired, hcc⟩ := step_fault c s t f false ft hft hg
+          refine ⟨⟨?_, ?_, ?_, ?_, ?_, ?_⟩, hrest, hlrest⟩
+          · rw [hws]; exact winv_deactivate _ _ _ _ _ hk h.w h.nd hin
+          · exact nodup_erase f h.nd
+          · intro g hg; exact h.sub g (List.mem_of_mem_erase hg)
+          · intro g; rw [hfired]
+            simp only [List.mem_cons, Prod.mk.injEq, Bool.true_eq_false, and_false, false_or]
+            exact h.firedA g
+          · intro g hg; rw [hfired] at hg
+            rcases List.mem_cons.mp hg with heq | hg
+            · have : g = f := by simpa using congrArg Prod.fst heq
+              subst this
+              exact ⟨fun hm => (List.Nodup.not_mem_erase h.nd) hm, h.sub g hin⟩
+            · exact ⟨fun hm => (h.firedD g hg).1 (List.mem_of_mem_erase hm), (h.firedD g hg).2⟩
+          · rw [hcc]; exact h.canc
+        · -- a stale `Partition.heal()`: the handle holds nothing any more
+          have hpe : isPartF c.faults f = true ∧ f ∈ ever := by
+            rcases hcond with h' | h'
+            · exact absurd h' hin
+            · exact h'
+          have hpk : isPartK ft.kind = true := isPartK_of_isPartF hk hpe.1
+          have h2 : (f, true) ∈ s.fired := (h.firedA f).mpr hpe.2
+          have hg : faultBad s f false ft.kind = false := by simp [faultBad, hcan, h2, hpk]
+          obtain ⟨hws, hfired, hcc⟩ := step_fault c s t f false ft hft hg
+          obtain ⟨hsame, herase⟩ := winv_deactivate_stale c.faults s.ws act f ft.kind hpk h.w hin
+          rw [herase]
+          refine ⟨⟨?_, h.nd, h.sub, ?_, ?_, ?_⟩, by rw [← herase]; exact hrest, hlrest⟩
+          · rw [hws]; simp only [Bool.false_eq_true, if_false]; rw [hsame]; exact h.w
+          · intro g; rw [hfired]
+            simp only [List.mem_cons, Prod.mk.injEq, Bool.true_eq_false, and_false, false_or]
+            exact h.firedA g
+          · intro g hg; rw [hfired] at hg
+            rcases List.mem_cons.mp hg with heq | hg
+            · have : g = f := by simpa using congrArg Prod.fst heq
+              subst this
+              exact ⟨hin, hpe.2⟩
+            · exact h.firedD g hg
+          · rw [hcc]; exact h.canc
+    | cancel t f =>
+      rw [step_cancel]
+      simp only [everStep, actStep, cancStep]
+      refine ⟨⟨h.w, h.nd, h.sub, h.firedA, h.firedD, ?_⟩, by simpa [wfFrom] using hwf,
+        by simpa [legitFrom] using hl⟩
+      simp [h.canc]
+    | healall t =>
+      rw [step_healall]
+      simp only [everStep, actStep, cancStep]
+      refine ⟨⟨winv_healall _ _ _ h.w, ?_, ?_, h.firedA, ?_, h.canc⟩, by simpa [wfFrom] using hwf,
+        by simpa [legitFrom] using hl⟩
+      · exact List.Nodup.sublist List.filter_sublist h.nd
+      · intro g hg; exact h.sub g (List.mem_filter.mp hg).1
+      · intro g hg
+        exact ⟨fun hm => (h.firedD g hg).1 (List.mem_filter.mp hm).1, (h.firedD g hg).2⟩
     | _ => simp [Pop.isFault] at hf
 
 /-- the state before the `k`-th processed event -/
 def stateAt (c : Case) (tr : List Pop) (k : Nat) : St := final c (St.init c) (tr.take k)
 
-theorem ginv_run (c : Case) : ∀ (tr : List Pop) (s : St) (ever act : List Nat) (k : Nat),
-    GInv c s ever act → wfFrom ever act tr = true → Legit c tr →
-    GInv c (final c s (tr.take k)) ((tr.take k).foldl everStep ever) ((tr.take k).foldl actStep act)
-  | _, s, ever, act, 0, h, _, _ => by simpa [final] using h
-  | [], s, ever, act, k + 1, h, _, _ => by simpa [final] using h
-  | p :: rest, s, ever, act, k + 1, h, hwf, hl => by
-    obtain ⟨h', hwf'⟩ := ginv_step c s ever act p rest h hwf hl
-    simpa [final] using ginv_run c rest _ _ _ k h' hwf' (legit_tail hl)
+theorem ginv_run (c : Case) : ∀ (tr : List Pop) (s : St) (ever act canc : List Nat) (k : Nat),
+    GInv c s ever act canc → wfFrom c.faults ever act tr = true → legitFrom c canc tr = true →
+    GInv c (final c s (tr.take k)) ((tr.take k).foldl everStep ever)
+      ((tr.take k).foldl (actStep c.faults) act) ((tr.take k).foldl cancStep canc)
+  | _, s, ever, act, canc, 0, h, _, _ => by simpa [final] using h
+  | [], s, ever, act, canc, k + 1, h, _, _ => by simpa [final] using h
+  | p :: rest, s, ever, act, canc, k + 1, h, hwf, hl => by
+    obtain ⟨h', hwf', hl'⟩ := ginv_step c s ever act canc p rest h hwf hl
+    simpa [final] using ginv_run c rest _ _ _ _ k h' hwf' hl'
 
 /-- **the window state is the projection of the active windows, at every point of every run** -/
-theorem inv_at (c : Case) (tr : List Pop) (k : Nat) (hwf : WF tr) (hl : Legit c tr) :
-    WInv c.faults (stateAt c tr k).ws (activeAfter (tr.take k)) :=
-  (ginv_run c tr (St.init c) [] [] k (ginv_init c) hwf hl).w
+theorem inv_at (c : Case) (tr : List Pop) (k : Nat) (hwf : WF c.faults tr) (hl : Legit c tr) :
+    WInv c.faults (stateAt c tr k).ws (activeAfter c.faults (tr.take k)) :=
+  (ginv_run c tr (St.init c) [] [] c.initCanc k (ginv_init c) hwf hl).w
 
 end HappyModel.C06
